@@ -719,7 +719,7 @@ OpResult Hist::run_op(const HOp& op0) {
       //  a%4 = 0/1/2: growth of an indefinite array / map / chunked string over hundreds of thousands to millions of insertions
       //  a%4 = 3    : decode -> compare -> serialise -> release of a definite or indefinite array/map with a member count around 2^16, 2^18, 2^19
       unsigned variant = (unsigned)(op.a % 5);
-      uint64_t saved_max = sa_knobs().max_request; sa_set_max_request((uint64_t)256 << 20);
+      sa_set_max_request((uint64_t)256 << 20);     // for this task only
       uint64_t sig_before = sa_live_sig();
       OpScope S(*this, op, variant == 3 ? "C03" : variant == 4 ? "C04,C13" : "C12");
       if (variant == 4) {
@@ -740,7 +740,7 @@ OpResult Hist::run_op(const HOp& op0) {
         }
         if (!failed()) { if (holder) cbor_decref(&holder); if (x) cbor_decref(&x); }
         if (!failed() && sa_live_sig() != sig_before) fail("C04,C13", "op-leaks-block", S.ctx + ": blocks remain after the reference marathon");
-        sa_set_max_request(saved_max);
+        sa_set_max_request(0);
         break;
       }
       if (variant < 3) {
@@ -801,7 +801,7 @@ OpResult Hist::run_op(const HOp& op0) {
         stat_add("marathon_big_load"); roundtrips++; serial_checked_nontrivial++;
       }
       if (!failed() && sa_live_sig() != sig_before) fail("C04,C03,C12", "op-leaks-block", S.ctx + ": blocks remain after the marathon container was released");
-      sa_set_max_request(saved_max);
+      sa_set_max_request(0);
       break;
     }
     case OP_GETTERS: {
@@ -841,7 +841,7 @@ void Hist::final_checks() {
     MV v = to_value(x); if (ref_depth(v) > impl_max_stack()) continue;
     std::vector<uint8_t> exp = ref_encode(v);
     unsigned char* buf = nullptr; size_t bs = 0;
-    if (exp.size() > sa_knobs().max_request) continue;      // the simulated allocator would refuse the output buffer
+    if (exp.size() > sa_max_request()) continue;      // the simulated allocator would refuse the output buffer
     sa_begin(FaultSpec()); size_t wr = cbor_serialize_alloc(nodes[x].impl, &buf, &bs); sa_end();
     std::string ctx = fmt("final round-trip of root #%d %s", x, mv_str(v, 80).c_str());
     if (wr != exp.size() || !buf || memcmp(buf, exp.data(), exp.size()) != 0) { fail("C03", "serialization-differs-from-rfc8949", ctx + fmt(": wrote %zu bytes [%s], reference %zu bytes [%s]", wr, buf ? to_hex(buf, std::min<size_t>(wr, 24)).c_str() : "", exp.size(), to_hex(exp.data(), std::min<size_t>(exp.size(), 24)).c_str())); if (buf) sa_client_free(buf); return; }
